@@ -7,12 +7,12 @@
 * an independent structural isomorphism check of two IR models over public accessors
 * deep snapshots of an IR model, file-access audit hook, wall-clock limit
 
-Tokens.  The model treats (type, shape, doc_string) of a value / ValueInfoProto as ONE opaque token
-that stands for its *serializable content*: `None` when nothing would be written.  A shape without
-a type cannot be written by `serialize_shape_into`, so it does not contribute to the token (and the
-entry is flagged `shape_only`, see finding D100).  metadata_props are part of the token; because the
-real code MERGES metadata when two entries reach the same value, protos whose value infos carry
-metadata are flagged `vinfo_metadata` and compared leniently in the C17 stream.
+Tokens.  The model treats what a value / ValueInfoProto knows besides its name as an `Info` =
+[type token | None, shape token | None, documentation token | None]; tokens are canonical JSON
+strings computed here independently of onnx_ir's serializer.  The documentation token covers
+doc_string and metadata_props; because the real code MERGES metadata when two entries reach the same
+value, protos whose value infos carry metadata are flagged `vinfo_metadata` and compared leniently
+in the C17 stream.
 """
 from __future__ import annotations
 
@@ -80,21 +80,25 @@ def _canon_proto_type(tp: onnx.TypeProto):
     return None, None
 
 
-def _mk_token(ty, sh, doc, meta=None) -> tuple[str | None, bool]:
-    """token of the serializable content + shape_only flag"""
+def _j(x) -> str:
+    return json.dumps(x, separators=(",", ":"))
+
+
+def _mk_token(ty, sh, doc, meta=None) -> tuple[list, bool]:
+    """Info triple [ty, sh, doc] + shape_only flag (a shape without a type: not serializable)"""
     doc = doc if doc else None
     meta = sorted(dict(meta).items()) if meta else None
     shape_only = ty is None and sh is not None
-    if ty is None:
-        sh = None
-    if ty is None and doc is None and meta is None:
-        return None, shape_only
-    if meta is None:
-        return json.dumps([ty, sh, doc], separators=(",", ":")), shape_only
-    return json.dumps([ty, sh, doc, meta], separators=(",", ":")), shape_only
+    d = None if (doc is None and meta is None) else _j([doc, meta])
+    return [None if ty is None else _j(ty), None if sh is None else _j(sh), d], shape_only
 
 
-def token_of_value_info(vi: onnx.ValueInfoProto) -> tuple[str | None, bool]:
+def emitted_info(info: list) -> list:
+    """what `serialize_value_into` writes of an Info (a shape needs a type)"""
+    return [info[0], info[1] if info[0] is not None else None, info[2]]
+
+
+def token_of_value_info(vi: onnx.ValueInfoProto) -> tuple[list, bool]:
     ty, sh = _canon_proto_type(vi.type) if vi.HasField("type") else (None, None)
     doc = vi.doc_string if vi.HasField("doc_string") else None
     return _mk_token(ty, sh, doc, {e.key: e.value for e in vi.metadata_props})
@@ -130,7 +134,7 @@ def _canon_ir_shape(s) -> list | None:
     return dims
 
 
-def token_of_value(v: ir.Value) -> tuple[str | None, bool]:
+def token_of_value(v: ir.Value) -> tuple[list, bool]:
     return _mk_token(_canon_ir_type(v.type), _canon_ir_shape(v.shape), v.doc_string, v.metadata_props)
 
 
@@ -141,20 +145,19 @@ def _sha(b: bytes) -> str:
 _TYPED_FIELDS = ("float_data", "int32_data", "string_data", "int64_data", "double_data", "uint64_data")
 
 
-def _tensor_token(kind: str, dtype: int, dims, doc, meta: dict, payload) -> tuple[str, str]:
+def _tensor_token(kind: str, dtype: int, dims, doc, meta: dict, payload) -> tuple[str, str, str]:
     if dtype not in _VALID_DTYPES:
         raise OutsideModel("unknown tensor dtype")
     data = _sha(
         json.dumps([kind, int(dtype), [int(d) for d in dims], doc or None, sorted(meta.items()), payload],
                    separators=(",", ":"), default=str).encode()
     )
-    tinfo, _ = _mk_token(["tensor", int(dtype), ""], [["v", int(d), ""] for d in dims], None)
-    return data, tinfo
+    return data, _j(["tensor", int(dtype), ""]), _j([["v", int(d), ""] for d in dims])
 
 
-def tensor_tokens_of_proto(t: onnx.TensorProto) -> tuple[str, str]:
-    """(data, tinfo): payload token (everything but the name, decoded independently of onnx_ir) and the
-    token of the (TensorType(dtype), Shape(dims)) pair a fresh initializer value receives."""
+def tensor_tokens_of_proto(t: onnx.TensorProto) -> tuple[str, str, str]:
+    """(data, ty, sh): payload token (everything but the name, decoded independently of onnx_ir) and the
+    tokens of the TensorType(dtype) / Shape(dims) a fresh initializer value receives."""
     meta = {e.key: e.value for e in t.metadata_props}
     doc = t.doc_string if t.HasField("doc_string") else None
     if t.data_location == onnx.TensorProto.EXTERNAL:
@@ -178,7 +181,7 @@ def tensor_tokens_of_proto(t: onnx.TensorProto) -> tuple[str, str]:
     return _tensor_token("dense", t.data_type, t.dims, doc, meta, payload)
 
 
-def tensor_tokens_of_ir(t) -> tuple[str, str]:
+def tensor_tokens_of_ir(t) -> tuple[str, str, str]:
     """the same token computed from an IR tensor object through its public accessors"""
     if isinstance(t, serde.TensorProtoTensor):
         return tensor_tokens_of_proto(t.raw)
@@ -204,11 +207,8 @@ def _subgraphs_of_node_proto(n: onnx.NodeProto) -> list[onnx.GraphProto]:
     Raises OutsideModel for duplicate attribute names (the earlier one is dropped by the dict) and for
     attribute kinds on which deserialization raises."""
     res = []
-    seen = set()
-    for a in n.attribute:
-        if a.name in seen:
-            raise OutsideModel("duplicate attribute name")
-        seen.add(a.name)
+    # the last attribute with a name is the one that is deserialized (first position), as in a dict
+    for a in {a.name: a for a in n.attribute}.values():
         if a.HasField("ref_attr_name") and a.ref_attr_name:
             continue
         if a.type == onnx.AttributeProto.GRAPH:
@@ -245,8 +245,7 @@ def graph_proto_to_model(g: onnx.GraphProto, flags: dict | None = None) -> dict:
         raise OutsideModel("sparse_initializer")
     inits = []
     for t in g.initializer:
-        data, tinfo = tensor_tokens_of_proto(t)
-        inits.append([t.name, data, tinfo])
+        inits.append([t.name, *tensor_tokens_of_proto(t)])
     nodes = []
     for n in g.node:
         nodes.append(
@@ -377,7 +376,7 @@ def ir_graph_to_world(graph: ir.Graph, flags: dict | None = None) -> dict:
                 "info": tok,
                 "const": None if v.const_value is None else num.t(v.const_value),
                 "producer": None if prod is None else num.nodes.get(id(prod)),
-                "index": v.index(),
+                "index": v.index() if (v.index() is None or v.index() >= 0) else None,
                 "uses": uses,
                 "graph": None if og is None else num.graphs.get(id(og)),
                 "isIn": v.is_graph_input(),
@@ -387,8 +386,7 @@ def ir_graph_to_world(graph: ir.Graph, flags: dict | None = None) -> dict:
         )
     tens = []
     for t in num.tobjs:
-        data, tinfo = tensor_tokens_of_ir(t)
-        tens.append([t.name, data, tinfo])
+        tens.append([t.name, *tensor_tokens_of_ir(t)])
     return {"vals": vals, "tens": tens, "nn": len(num.nobjs), "ng": len(num.gobjs), "root": root}
 
 
@@ -988,7 +986,12 @@ def snapshot_model(model: ir.Model) -> dict:
             "graph": None if n.graph is None else num.g(n.graph),
             "inputs": [value_ref(v) for v in n.inputs], "outputs": [value_ref(v) for v in n.outputs],
             "attrs": [_attr_content(a, num, graph_snap) for a in n.attributes.values()],
-            "devcfg": repr(n.device_configurations),
+            "devcfg": [
+                [None if c.configuration is None else c.configuration.name, c.pipeline_stage,
+                 [[value_ref(sp.value), list(sp.device), repr(sp.index_to_device_group_map), repr(sp.sharded_dims)]
+                  for sp in c.sharding_specs]]
+                for c in n.device_configurations
+            ],
         }
 
     body = {
@@ -1055,6 +1058,8 @@ class IsoChecker:
         self.fw: dict[int, Any] = {}
         self.bw: dict[int, Any] = {}
         self.pairs: list = []
+        self.nodes_a: set[int] = set()
+        self.nodes_b: set[int] = set()
 
     def fail(self, what):
         raise IsoMismatch(what)
@@ -1100,6 +1105,8 @@ class IsoChecker:
             self.eq(_attr_content(a, _Numbering(), None), _attr_content(b, _Numbering(), None), where)
 
     def node(self, a, b, where, ir_version):
+        self.nodes_a.add(id(a))
+        self.nodes_b.add(id(b))
         self.eq([a.domain, a.op_type, a.overload, a.name, _falsy_none(a.doc_string), dict(a.metadata_props)],
                 [b.domain, b.op_type, b.overload, b.name, _falsy_none(b.doc_string), dict(b.metadata_props)], where)
         self.eq(len(a.inputs), len(b.inputs), where + ".inputs#len")
@@ -1149,12 +1156,17 @@ class IsoChecker:
         for a, b, where in self.pairs:
             w = f"{where} value {a.name!r}"
             self.eq(a.name, b.name, w + ".name")
-            ta, _ = token_of_value(a)
-            tb, _ = token_of_value(b)
-            if ta is None and a.is_initializer() and not a.is_graph_input() and a.const_value is not None:
-                pass  # receives type/shape from the tensor
-            else:
-                self.eq(ta, tb, w + ".type/shape/doc")
+            ta = emitted_info(token_of_value(a)[0])
+            tb = emitted_info(token_of_value(b)[0])
+            if a.is_initializer() and not a.is_graph_input() and not a.is_graph_output() and a.const_value is not None:
+                # a non-input, non-output initializer receives a missing type / shape from its tensor
+                # (a graph output takes exactly what its output entry says)
+                _, tty, tsh = tensor_tokens_of_ir(a.const_value)
+                if ta[0] is None:
+                    ta = [tty, None, ta[2]]
+                if ta[1] is None:
+                    ta[1] = tsh
+            self.eq(ta, tb, w + ".type/shape/doc")
             self.eq(dict(a.metadata_props), dict(b.metadata_props), w + ".metadata_props")
             self.eq([a.is_graph_input(), a.is_graph_output(), a.is_initializer()],
                     [b.is_graph_input(), b.is_graph_output(), b.is_initializer()], w + ".flags")
@@ -1169,8 +1181,8 @@ class IsoChecker:
                 self.fail(w + ": producer presence differs")
             self.eq(a.index() if pa is not None else None, b.index() if pb is not None else None, w + ".index")
             # uses by nodes that belong to a graph (a node removed from its graph may still be registered)
-            self.eq(len([u for u in a.uses() if u.node.graph is not None]),
-                    len([u for u in b.uses() if u.node.graph is not None]), w + ".uses#len")
+            self.eq(len([u for u in a.uses() if id(u.node) in self.nodes_a]),
+                    len([u for u in b.uses() if id(u.node) in self.nodes_b]), w + ".uses#len")
 
     def model(self, a: ir.Model, b: ir.Model):
         self.eq([a.ir_version, _falsy_none(a.producer_name), _falsy_none(a.producer_version), _falsy_none(a.domain),
@@ -1240,7 +1252,7 @@ def serializable_reason(model: ir.Model) -> str | None:
             if v.name == "":
                 if v.producer() is None:
                     return "graph input/initializer with empty name"
-                if v.uses() or v.is_graph_output() or token_of_value(v)[0] is not None or v.metadata_props:
+                if v.uses() or v.is_graph_output() or emitted_info(token_of_value(v)[0]) != [None, None, None]:
                     return "empty-named output that is used or carries information"
                 continue
             if v.name in names:
@@ -1277,6 +1289,8 @@ def serializable_reason(model: ir.Model) -> str | None:
     for f in model.functions.values():
         if len(f.graph.initializers):
             return "function with initializers"
+        if f.overload and model.ir_version < 10:
+            return "function overload in IR version < 10"
         r = graph(f.graph, set(), set(), function=True)
         if r:
             return "function: " + r
